@@ -109,6 +109,15 @@ func runC18(c c18Case) Result {
 	overwrite, erase, bothChildren, reusedObject := false, false, false, false
 	objs := map[string]*big.Int{}
 	touched := map[uint64]bool{}
+	// Callers keep the returned paths while they go on updating (gen-test-params collects one per batch slot and
+	// serialises them at the end): a returned path must not change under later updates.
+	type kept struct {
+		step int
+		path []big.Int
+		snap []*big.Int
+	}
+	var retained []kept
+	siblingRewritten := false
 	for si, st := range c.Steps {
 		prevVal := model.Get(st.Index)
 		prevRoot := model.Root()
@@ -170,10 +179,22 @@ func runC18(c c18Case) Result {
 		if ref.Fold(h, st.Value, idx, pp).Cmp(&gotRoot) != 0 {
 			return bad(class, "Update:path-new", "step %d: path does not authenticate new value against new root", si)
 		}
+		for _, k := range retained {
+			if c.Steps[k.step].Index == st.Index^1 && prevVal.Sign() != 0 && st.Value.Sign() != 0 {
+				siblingRewritten = true
+			}
+			if !eqPath(k.path, k.snap) {
+				return bad(class, "Update:retained-path-changed", "step %d (index %d): the sibling path returned by step %d (index %d) changed under this later update, so the path its caller holds no longer authenticates that leaf against the roots it was issued for", si, st.Index, k.step, c.Steps[k.step].Index)
+			}
+		}
+		retained = append(retained, kept{si, path, ref.CloneSlice(wantPath)})
 	}
 	r := ok(class, overwrite || erase || bothChildren)
 	if reusedObject {
 		r = r.tag("same-value-object-passed-again")
+	}
+	if siblingRewritten {
+		r = r.tag("sibling-rewritten-while-path-retained")
 	}
 	return r
 }
